@@ -116,7 +116,13 @@ pub fn run_one(prop: &dyn Prop, tape: Tape, trace: bool, want_sample: bool) -> R
                 // Class keeps the panic site (file:line) out so that minimisation may simplify,
                 // but keeps the first words of the message.
                 let head: String = msg.split(" at ").next().unwrap_or("").chars().take(60).collect();
-                (Some((format!("{id}/panic"), format!("panic: {head} ({msg})"))), None)
+                let loc = msg.rsplit(" at ").next().unwrap_or("");
+                if loc.starts_with("src/") {
+                    // a panic in the simulator's own code is a harness error, never a verdict
+                    (Some(("HARNESS/panic".to_string(), format!("panic in the harness: {msg}"))), None)
+                } else {
+                    (Some((format!("{id}/panic"), format!("panic: {head} ({msg})"))), None)
+                }
             }
         }
     };
@@ -325,6 +331,12 @@ pub fn run_batch(prop: &dyn Prop, opt: &Options) -> i32 {
     }
 
     let mut violation_json = Value::Null;
+    if let Some((idx, class, msg, tape)) = &violation {
+        if class == "HARNESS/panic" {
+            eprintln!("HARNESS-ERROR: {id} job {idx}: {msg}; tape {tape:?}");
+            return 2;
+        }
+    }
     if let Some((idx, class, msg, tape)) = violation {
         let (min_tape, execs) = minimise(prop, &tape, &class, 3000, 30.0);
         let out = run_one(prop, Tape::replay(min_tape.clone()), true, true);
